@@ -127,13 +127,17 @@ def gen_stop(tier, rng, prefix, count):
     """Stop with work in flight: busy / idle / expiring expanded workers, queued tasks, a pool never started"""
     out = []
     for i in range(count):
-        v = ["inflight", "notstarted", "expanded_idle", "expanded_busy", "twice"][i % 5]
+        v = ["inflight", "notstarted", "expanded_idle", "expanded_busy", "twice", "notstarted_expanded"][i % 6]
         if v == "inflight":
             ths = [["D1,0,1", "D2", "/", "X", "/", "R1", "R2"], ["/", "G1", "/"]]
             o = dict(workers=1, limit=0, autostart=1)
         elif v == "notstarted":
             ths = [["D1", "/", "X", "/", "R1"], ["/", rng.choice(["T2", "S", "D3"]), "/"]]
             o = dict(workers=1, limit=rng.choice([0, 1]), autostart=0)
+        elif v == "notstarted_expanded":
+            # never started, but the second Do finds the queue full and spawns an expanded worker: Stop must wait for it
+            ths = [["D1,0,1", "D2,0,1", "/", "X", "/", "R1", "R2"], ["/", "G1", "/"]]
+            o = dict(workers=1, limit=1, autostart=0)
         elif v == "expanded_idle":
             ths = [["D1,0,1", "D2,0,1", "D3,0,1", "/", "R1", "R2", "R3", "/", "X"], ["W2", "G1", "/", "/", rng.choice(["F0", "T5"])]]
             o = dict(workers=1, limit=1, autostart=1)
